@@ -46,3 +46,26 @@ Theorem c01_reencode : forall E v, env_ok E = true -> In v VERSIONS ->
   x' = x /\ rest' = rest /\ wr E v fuel tag k x' = Some bs.
 Proof. exact reencode. Qed.
 Print Assumptions c01_reencode.
+
+(* for any byte string the decoder accepts, decode - encode - decode gives the same value *)
+Theorem c01_dec_enc_dec : forall E v, env_ok E = true -> In v VERSIONS ->
+  forall fuel tag k bs x rest, tag_ok tag = true -> bytes_ok bs = true -> zlen bs < TWO31 ->
+  rd E v fuel tag k bs = Some (x, rest) ->
+  exists bs', wr E v fuel tag k x = Some bs' /\
+              forall rest', rd E v fuel tag k (bs' ++ rest') = Some (x, rest').
+Proof. exact dec_enc_dec_struct. Qed.
+Print Assumptions c01_dec_enc_dec.
+
+(* ---- instantiation at the schemas regenerated from /repo on this run (tie T) ---- *)
+From PKGen Require Import Schemas.
+
+(* reader and writer of every translated class agree item by item, tags are unambiguous under
+   every version, every referenced class and enumeration exists *)
+Theorem c01_E_ok : env_ok Schemas.E = true.
+Proof. vm_compute. reflexivity. Qed.
+
+Theorem c01_roundtrip_E : forall v, In v VERSIONS ->
+  forall fuel tag k x bs, tag_ok tag = true -> wfv Schemas.E v fuel k x = true ->
+  wr Schemas.E v fuel tag k x = Some bs -> forall rest, rd Schemas.E v fuel tag k (bs ++ rest)%list = Some (x, rest).
+Proof. intros v. exact (roundtrip Schemas.E v c01_E_ok). Qed.
+Print Assumptions c01_roundtrip_E.
